@@ -30,15 +30,23 @@ extern int g_l, g_i, g_srcs;
 extern unsigned char *S_ec;                          /* ghost fold array, srcs+1 bytes */
 extern unsigned char w_src[EC_KMAX], w_coef[EC_KMAX]; /* replay witnesses */
 extern unsigned char w_old, w_term;
-extern int g_r, g_c;                                 /* ghost table block (row, column) */
-extern unsigned char *w_a0, *w_t0;                   /* entry snapshots (by assignment) */
-extern unsigned char w_lo, w_hi;
+extern int g_b;                                      /* ghost table block */
 
 #if EC_RMAX == 3
 #define EC_DEST_OBJS(d) __CPROVER_object_whole((d)[0]), __CPROVER_object_whole((d)[1]), __CPROVER_object_whole((d)[2])
 #else
 #define EC_DEST_OBJS(d) __CPROVER_object_whole((d)[0]), __CPROVER_object_whole((d)[1]), __CPROVER_object_whole((d)[2]), __CPROVER_object_whole((d)[3])
 #endif
+/* CBMC dereferences a pointer that a loop contract havocked by a case split over every object of the
+ * program (no value-set information survives the havoc): 60x larger formulas.  This ghost statement
+ * first PROVES that the pointer already has the stated value and then re-assigns that same value,
+ * which is a no-op in every execution in which the assertion holds; it only refreshes CBMC's points-to
+ * information.  It is not an assumption. */
+#define GHOST_SAME_VALUE(p, e)                                                                     \
+        do {                                                                                       \
+                __CPROVER_assert((p) == (e), "ghost: " #p " already equals " #e);                  \
+                (p) = (e);                                                                         \
+        } while (0)
 #define EC_GHOST_IN(rows, len) (0 <= g_l && g_l < (rows) && 0 <= g_i && g_i < (len))
 
 /* ------------------------------------------------------------------ C03: ec_encode_data_base */
@@ -155,6 +163,7 @@ extern unsigned char w_lo, w_hi;
 /* constant multiply: the constant is a[1]; len not a multiple of 32 -> -1 and nothing written */
 #define EC_POS(n) ((n) > 0 ? (size_t) (n) : (size_t) 0)
 #define C_gf_vect_mul_base                                                                         \
+        __CPROVER_requires(len > -2147483647 - 1) /* `len--` on INT_MIN is signed overflow */      \
         __CPROVER_requires(__CPROVER_is_fresh(a, 32))                                              \
         __CPROVER_requires(__CPROVER_is_fresh(src, EC_POS(len)) && __CPROVER_is_fresh(dest, EC_POS(len))) \
         __CPROVER_ensures((len % 32 != 0) ==> __CPROVER_return_value == -1)                        \
@@ -162,6 +171,8 @@ extern unsigned char w_lo, w_hi;
         __CPROVER_ensures((len % 32 == 0 && 0 <= g_i && g_i < len) ==> dest[g_i] == spec_gf_mul(a[1], src[g_i])) \
         __CPROVER_assigns(len > 0 && len % 32 == 0 : __CPROVER_object_upto(dest, len); w_term)
 #define E_gf_vect_mul_base                                                                         \
+        unsigned char *const gh_d0 = dest, *const gh_s0 = src;                                     \
+        const int gh_n0 = len;                                                                     \
         if (len % 32 == 0 && 0 <= g_i && g_i < len)                                                \
                 w_term = spec_gf_mul(a[1], src[g_i]);
 #define L_gf_vect_mul_base_1                                                                       \
@@ -172,41 +183,59 @@ extern unsigned char w_lo, w_hi;
         __CPROVER_loop_invariant((0 <= g_i && g_i < __CPROVER_loop_entry(len) - len) ==>           \
                                  __CPROVER_loop_entry(dest)[g_i] == w_term)                        \
         __CPROVER_decreases(len)
-#define H_gf_vect_mul_base_1 VCANARY();
+#define H_gf_vect_mul_base_1                                                                       \
+        GHOST_SAME_VALUE(dest, gh_d0 + (gh_n0 - len - 1));                                         \
+        GHOST_SAME_VALUE(src, gh_s0 + (gh_n0 - len - 1));                                          \
+        VCANARY();
 
 /* ------------------------------------------------------------------ C12: ec_init_tables_base */
-/* block (g_r*k+g_c) of g_tbls is the 32-byte expansion of a[g_r*k+g_c]; ghost entry g_ti < 16 */
-#define EC_TBL_IN (0 <= g_r && g_r < rows && 0 <= g_c && g_c < k)
-#define EC_TBL_LO(t) ((t)[(g_r * k + g_c) * 32 + g_ti])
-#define EC_TBL_HI(t) ((t)[(g_r * k + g_c) * 32 + 16 + g_ti])
+/* Block n of g_tbls is the 32-byte expansion of a[n] for every n < k*rows (n = i*k+j enumerates exactly
+ * 0..k*rows-1, so this is the statement "block (i*k+j) expands a[i*k+j]").  Ghost block g_b, ghost
+ * entry g_ti < 16.  The proof counts blocks with ghost locals (gh_n done, gh_rest = (rows-i)*k still to
+ * come) so that the only non-linear fact the solver needs is (x-1)*k == x*k-k. */
+#define EC_TBL_IN (0 <= g_b && g_b < k * rows)
+#define EC_TBL_LO(t) ((t)[(size_t) g_b * 32 + g_ti])
+#define EC_TBL_HI(t) ((t)[(size_t) g_b * 32 + 16 + g_ti])
 #define C_ec_init_tables_base                                                                      \
         __CPROVER_requires(0 <= k && k <= 255 && 0 <= rows && rows <= 255 && g_ti < 16)            \
         __CPROVER_requires(__CPROVER_is_fresh(a, (size_t) k * rows))                               \
         __CPROVER_requires(__CPROVER_is_fresh(g_tbls, (size_t) 32 * k * rows))                     \
-        __CPROVER_ensures(EC_TBL_IN ==> EC_TBL_LO(g_tbls) == spec_gf_mul(a[g_r * k + g_c], (unsigned char) g_ti)) \
-        __CPROVER_ensures(EC_TBL_IN ==> EC_TBL_HI(g_tbls) == spec_gf_mul(a[g_r * k + g_c], (unsigned char) (g_ti << 4))) \
-        __CPROVER_assigns(__CPROVER_object_upto(g_tbls, (size_t) 32 * k * rows), w_a0, w_t0, w_lo, w_hi)
+        __CPROVER_ensures(EC_TBL_IN ==> EC_TBL_LO(g_tbls) == spec_gf_mul(a[g_b], (unsigned char) g_ti)) \
+        __CPROVER_ensures(EC_TBL_IN ==> EC_TBL_HI(g_tbls) == spec_gf_mul(a[g_b], (unsigned char) (g_ti << 4))) \
+        __CPROVER_assigns(__CPROVER_object_upto(g_tbls, (size_t) 32 * k * rows))
 #define E_ec_init_tables_base                                                                      \
-        w_a0 = a;                                                                                  \
-        w_t0 = g_tbls;                                                                             \
+        unsigned char *const gh_a0 = a, *const gh_t0 = g_tbls; /* entry snapshots */               \
+        const int gh_N = k * rows;                                                                 \
+        int gh_n = 0, gh_rest = k * rows;                                                          \
+        unsigned char gh_lo = 0, gh_hi = 0;                                                        \
         if (EC_TBL_IN) {                                                                           \
-                w_lo = spec_gf_mul(a[g_r * k + g_c], (unsigned char) g_ti);                        \
-                w_hi = spec_gf_mul(a[g_r * k + g_c], (unsigned char) (g_ti << 4));                 \
+                gh_lo = spec_gf_mul(a[g_b], (unsigned char) g_ti);                                 \
+                gh_hi = spec_gf_mul(a[g_b], (unsigned char) (g_ti << 4));                          \
         }
+#define EC_TBL_DONE ((0 <= g_b && g_b < gh_n) ==> (EC_TBL_LO(gh_t0) == gh_lo && EC_TBL_HI(gh_t0) == gh_hi))
 #define L_ec_init_tables_base_1                                                                    \
-        __CPROVER_assigns(i, j, a, g_tbls, __CPROVER_object_whole(g_tbls))                         \
+        __CPROVER_assigns(i, j, a, g_tbls, gh_n, gh_rest, __CPROVER_object_whole(gh_t0))           \
         __CPROVER_loop_invariant(0 <= i && i <= rows)                                              \
-        __CPROVER_loop_invariant(a == w_a0 + i * k && g_tbls == w_t0 + i * k * 32)                 \
-        __CPROVER_loop_invariant((EC_TBL_IN && g_r < i) ==> (EC_TBL_LO(w_t0) == w_lo && EC_TBL_HI(w_t0) == w_hi)) \
+        __CPROVER_loop_invariant(0 <= gh_n && gh_n <= gh_N && 0 <= gh_rest && gh_rest <= gh_N)     \
+        __CPROVER_loop_invariant(gh_n + gh_rest == gh_N && gh_rest == (rows - i) * k)              \
+        __CPROVER_loop_invariant(a == gh_a0 + gh_n && g_tbls == gh_t0 + (size_t) 32 * gh_n)        \
+        __CPROVER_loop_invariant(EC_TBL_DONE)                                                      \
         __CPROVER_decreases(rows - i)
+#define H_ec_init_tables_base_1                                                                    \
+        gh_rest -= k;                                                                              \
+        VCANARY();
 #define L_ec_init_tables_base_2                                                                    \
-        __CPROVER_assigns(j, a, g_tbls, __CPROVER_object_whole(g_tbls))                            \
+        __CPROVER_assigns(j, a, g_tbls, gh_n, __CPROVER_object_whole(gh_t0))                       \
         __CPROVER_loop_invariant(0 <= j && j <= k)                                                 \
-        __CPROVER_loop_invariant(a == w_a0 + (i * k + j) && g_tbls == w_t0 + (i * k + j) * 32)     \
-        __CPROVER_loop_invariant((EC_TBL_IN && (g_r < i || (g_r == i && g_c < j))) ==>             \
-                                 (EC_TBL_LO(w_t0) == w_lo && EC_TBL_HI(w_t0) == w_hi))             \
+        __CPROVER_loop_invariant(0 <= gh_n && gh_n <= gh_N && 0 <= gh_rest && gh_rest <= gh_N)     \
+        __CPROVER_loop_invariant(gh_n + gh_rest + (k - j) == gh_N)                                 \
+        __CPROVER_loop_invariant(a == gh_a0 + gh_n && g_tbls == gh_t0 + (size_t) 32 * gh_n)        \
+        __CPROVER_loop_invariant(EC_TBL_DONE)                                                      \
         __CPROVER_decreases(k - j)
-#define H_ec_init_tables_base_1 VCANARY();
-#define H_ec_init_tables_base_2 VCANARY();
+#define H_ec_init_tables_base_2                                                                    \
+        GHOST_SAME_VALUE(a, gh_a0 + gh_n);                                                         \
+        GHOST_SAME_VALUE(g_tbls, gh_t0 + (size_t) 32 * gh_n);                                      \
+        gh_n++;                                                                                    \
+        VCANARY();
 
 #endif
